@@ -39,6 +39,21 @@ cNameR1   == <<"R","1">>
 cNameDot  == <<"a",".","b","_","c","-","1">>
 cNameSp   == <<"a"," ","b">>
 cNameDol  == <<"a","$">>
+cEmpty    == <<>>                       \* the empty string (as a component name, a path, ...)
+cNameSl   == <<"a","/","b">>
+(* "{U+00E9}" is one character, e with acute accent: the driver renders this token as that rune (and reads it *)
+(* back), because TLC's Json module does not carry non-ASCII text                                            *)
+cNameUni  == <<"a","{U+00E9}">>
+cName1    == <<"a">>
+cNameDots == <<".">>
+cNameDash == <<"-">>
+cNameUnd  == <<"_">>
+cNameMix  == <<".","_","-">>
+cNameDig  == <<"1","a">>
+cExtUp    == <<"X","-","e">>            \* not an extension: the prefix is lower-case x-
+cExtBare  == <<"x","-">>                \* an extension: nothing is required after the prefix
+cPathVar  == <<"{","i","d","}">>
+cPathEV   == <<"/","p","/","{","}">>
 cUrlPlain == <<"h","t","t","p",":","/","/","h">>
 cUrlVar   == <<"h","t","t","p",":","/","/","h","/","{","v","}">>
 cUrlOpen  == <<"h","t","t","p",":","/","/","h","/","{","v">>
@@ -46,10 +61,12 @@ cPatOk    == <<"a","+">>
 cPatBad   == <<"(","a">>
 cExpr     == <<"{","$","r","e","q","u","e","s","t",".","b","o","d","y","#","/","u","}">>
 CharVocab == {cExt, cBogus, cDescr, cPathP, cPathQ, cPathNoSl, cPathId, cPathK, cPathIdK, cPathQId,
-              cNameS, cNameT, cNameR, cNameR1, cNameDot, cNameSp, cNameDol, cUrlPlain, cUrlVar, cUrlOpen, cPatOk, cPatBad, cExpr}
+              cNameS, cNameT, cNameR, cNameR1, cNameDot, cNameSp, cNameDol, cEmpty, cNameSl, cNameUni, cName1, cNameDots,
+              cNameDash, cNameUnd, cNameMix, cNameDig, cExtUp, cExtBare, cPathVar, cPathEV, cUrlPlain, cUrlVar, cUrlOpen, cPatOk, cPatBad, cExpr}
 
 (* constant table (evaluated once by TLC): the strings of the vocabulary with their characters *)
 VocabTab == {[s |-> Join(cs), cs |-> cs] : cs \in CharVocab}
+ASSUME \A x, y \in VocabTab : x.s = y.s => x.cs = y.cs
 Analysable(s) == \E x \in VocabTab : x.s = s
 CharsOf(s)    == (CHOOSE x \in VocabTab : x.s = s).cs
 (* a key outside the vocabulary is not an extension key (every x- key of the universe is in it) *)
